@@ -224,7 +224,7 @@ package decoder
 //@   requires dstApart(p, dsize(dataOf(d)), ctx.Buf)
 // assumed of every implementation: on success the cursor stays inside the buffer and the terminator is still there
 //@   ensures err == nil ==> cursor < c && c < len(old(ctx.Buf)) && M(ptrOf(old(ctx.Buf)) + len(old(ctx.Buf)) - 1) == 0
-//@   ensures ctx.Buf == old(ctx.Buf)
+//@   ensures ctx.Buf == old(ctx.Buf) && ctx.Option == old(ctx.Option)
 //@   assigns all
 
 //@ func Decoder.DecodePath(d, ctx, cursor, depth) (paths, c, err)
@@ -1003,3 +1003,31 @@ package decoder
 //@   requires d.isPtrType ==> dsize(dataOf(d.dec)) == 8
 //@   requires region(p, dsize(dataOf(d.dec))) && dsize(dataOf(d.dec)) >= 1
 //@   assigns all
+
+// ---------------------------------------------------------------- struct decoding: every field lands inside the struct (C07, C06)
+// ssize(d): size of the struct type a structDecoder was compiled for (set up by the reflection-driven compiler)
+//@ ufun ssize(Int) Int
+
+// The function stored in structDecoder.keyDecoder is decodeKey, decodeKeyByBitmapUint8 or ...Uint16
+// (tryOptimize is the only writer). Assumed of it: on success the cursor is inside the input, and a
+// field set it returns is one of this decoder's, whose offset and decoder fit inside the struct
+// (compileStruct computes both from reflect's field table).
+//@ func fieldfunc:structDecoder.keyDecoder(d, buf, cursor) (c, field, err)
+//@   props C07 C06 C15
+//@   trusted interface contract of the key decoders: the three functions ever stored in the field are verified against their own contracts; their bitmap preconditions and the offsets of the field sets come from tryOptimize / compileStruct (bounded stand-ins only)
+//@   requires d != nil && bufOK(buf, cursor)
+//@   ensures err == nil ==> cursor < c && c < len(buf)
+//@   ensures err == nil && field != nil ==> field.dec != nil && 0 <= field.offset && field.offset + dsize(dataOf(field.dec)) <= ssize(d) && dsize(dataOf(field.dec)) >= 0
+//@   ensures buf[len(buf)-1] == 0
+//@   assigns M[ptrOf(buf) + cursor .. ptrOf(buf) + len(buf) - 1)
+
+//@ func (*structDecoder).Decode(d, ctx, cursor, depth, p) (c, err)
+//@   props C07 C06
+//@   requires d != nil && ctx != nil && ctx.Option != nil && bufOK(ctx.Buf, cursor)
+//@   requires ssize(d) >= 0 && region(p, ssize(d)) && dstApart(p, ssize(d), ctx.Buf)
+//@   ensures err == nil ==> cursor < c && c < len(old(ctx.Buf))
+// every destination handed to a field decoder lies inside the struct
+//@   callassert Decode: arg4 >= p && arg4 + dsize(dataOf(arg0)) <= p + ssize(d)
+//@   assigns all
+//@   loop 1: invariant old(cursor) < cursor && cursor < len(buf) && buf == old(ctx.Buf) && ctx.Buf == buf && buf[len(buf)-1] == 0 && b == ptrOf(buf) && buflen == len(buf)
+//@   loop 1: invariant ctx.Option != nil
